@@ -14,6 +14,7 @@ import (
 	"fmt"
 	"go/token"
 	"go/types"
+	"strings"
 
 	"golang.org/x/tools/go/ssa"
 )
@@ -620,5 +621,178 @@ func ruleGRDsmallgraph(w *World, r *Report) {
 	}
 	if n == 0 {
 		r.Und("GRD-smallgraph", "anchor:addBatchInternal:small-graph-test", w.Pos(fi.Decl.Pos()), "no `size < ef` test in front of the sequential insertion found")
+	}
+}
+
+// ruleGRDrelink: a restart links EVERY restored node to its vector, tombstones included. The layer search walks
+// through soft-deleted nodes (GRD-traverse); a tombstone that comes back from a snapshot without its vector cannot be
+// walked through, and if it is the entry point every search returns nothing.
+func ruleGRDrelink(w *World, r *Report) {
+	r.Doc("GRD-relink", "LoadSnapshotData fetches the arena bytes of a restored node and attaches the vector on both outcomes of every Deleted test: soft-deleted nodes keep their vectors across a restart, so the search can still walk through them", 1)
+	fi := w.Func(hnswPkg, "Index.LoadSnapshotData")
+	if fi == nil {
+		r.Und("GRD-relink", "anchor:Index.LoadSnapshotData", "", "anchor lost")
+		return
+	}
+	fn := w.SSAFunc(fi.Obj)
+	links := findInstrs(fn, func(in ssa.Instruction) bool {
+		return isModCall(in, "pkg/storage/mmap", "VectorArena.GetBytes") || isModCall(in, hnswPkg, "Node.SetVector")
+	})
+	if len(links) == 0 {
+		r.Und("GRD-relink", "LoadSnapshotData:relink", w.Pos(fi.Decl.Pos()), "LoadSnapshotData no longer relinks node vectors to the arena (shape not recognised)")
+		return
+	}
+	var tests []*ssa.Call
+	for _, in := range findInstrs(fn, func(in ssa.Instruction) bool {
+		c, ok := in.(*ssa.Call)
+		if !ok {
+			return false
+		}
+		o := calleeObj(&c.Call)
+		return o != nil && o.Pkg() != nil && o.Pkg().Path() == "sync/atomic" && shortName(o) == "Bool.Load" && recvIsField(c, "Deleted")
+	}) {
+		tests = append(tests, in.(*ssa.Call))
+	}
+	bad := false
+	var at ssa.Instruction
+	for _, l := range links {
+		for _, t := range tests {
+			tr, fl := condEdges(t)
+			for _, e := range append(tr, fl...) {
+				s := e.from.Succs[e.succ]
+				if len(s.Preds) == 1 && (s == l.Block() || s.Dominates(l.Block())) {
+					bad, at = true, t
+				}
+			}
+		}
+	}
+	pos := w.Pos(links[0].Pos())
+	if at != nil {
+		pos = w.Pos(at.Pos())
+	}
+	r.Cond(!bad, "GRD-relink", "LoadSnapshotData:relink-independent-of-deleted", pos, fmt.Sprintf("all %d relink steps are reached on both outcomes of every Deleted test", len(links)), "LoadSnapshotData attaches a restored node's vector only on one outcome of a Deleted test: after a restart soft-deleted nodes have no vector, the layer search can no longer walk through them, and a deleted entry point makes every search return nothing until the next vacuum")
+}
+
+// ruleGRDquerynorm: whether the query is normalised must not depend on the storage precision. (The int8 path quantizes
+// the query with a scale learnt from the data; a cosine query of arbitrary length that is not brought to unit length
+// first is clipped.)
+func ruleGRDquerynorm(w *World, r *Report) {
+	r.Doc("GRD-querynorm", "in searchInternal the decision to normalise the query (truth table over the index's metric/precision tests, computed on SSA) does not depend on the precision: a cosine query is prepared the same way for float32, float16 and int8 indexes", 1)
+	fi := w.Func(hnswPkg, "Index.searchInternal")
+	if fi == nil {
+		r.Und("GRD-querynorm", "anchor:Index.searchInternal", "", "anchor lost")
+		return
+	}
+	fn := w.SSAFunc(fi.Obj)
+	norm := w.FuncObj(hnswPkg, "normalize")
+	if norm == nil {
+		r.Und("GRD-querynorm", "anchor:normalize", "", "anchor lost")
+		return
+	}
+	sites := findInstrs(fn, callsTo(norm))
+	if len(sites) == 0 {
+		r.Ok("GRD-querynorm", "searchInternal:normalisation-independent-of-precision", w.Pos(fi.Decl.Pos()), "the query is never normalised here (nothing that could depend on the precision)")
+		return
+	}
+	all := map[*ssa.BasicBlock]bool{}
+	for _, b := range fn.Blocks {
+		all[b] = true
+	}
+	tbl, keys := truthTable(fn, all, func(assume map[ssa.Value]bool) bool {
+		found, _ := pathQuery{fn: fn, target: callsTo(norm), assume: assume}.find(entryPos(fn))
+		return found
+	})
+	dep := strings.Contains(tbl, "precision")
+	r.Cond(!dep, "GRD-querynorm", "searchInternal:normalisation-independent-of-precision", w.Pos(sites[0].Pos()), "the query is normalised on {"+tbl+"} (atoms considered: "+strings.Join(keys, ", ")+")", "searchInternal normalises the query on {"+tbl+"}, which depends on the storage precision: on an int8 (or float16) cosine index a query that is not of unit length is quantized as it is and clipped — recall drops and the answer changes when the query is rescaled")
+}
+
+// ruleGRDdescent: the top-down descent of searchInternal survives a layer without a live node. The layer search
+// leaves soft-deleted nodes out of its results, so an upper layer whose nodes are all tombstones (delete the few
+// vectors that live on the top layer) yields an empty result; ending the query there makes every search on the index
+// come back empty until a vacuum re-elects the entry point.
+func ruleGRDdescent(w *World, r *Report) {
+	r.Doc("GRD-descent", "in searchInternal an empty result of an upper-layer search never ends the query: from the `len(result) == 0` edge no return is reachable without the base-layer search", 1)
+	fi := w.Func(hnswPkg, "Index.searchInternal")
+	sl := w.FuncObj(hnswPkg, "Index.searchLayerUnlocked")
+	if fi == nil || sl == nil {
+		r.Und("GRD-descent", "anchor:searchInternal/searchLayerUnlocked", "", "anchor lost")
+		return
+	}
+	fn := w.SSAFunc(fi.Obj)
+	layerCalls := findInstrs(fn, callsTo(sl))
+	levelOf := func(c *ssa.Call) (int64, bool) {
+		// receiver, query, entrypoint, k, level, ...
+		if len(c.Call.Args) < 5 {
+			return 0, false
+		}
+		return constInt(c.Call.Args[4])
+	}
+	isBase := func(in ssa.Instruction) bool {
+		c, ok := in.(*ssa.Call)
+		if !ok || calleeObj(&c.Call) != sl {
+			return false
+		}
+		l, ok := levelOf(c)
+		return ok && l == 0
+	}
+	if len(findInstrs(fn, isBase)) == 0 {
+		r.Und("GRD-descent", "searchInternal:base-layer-search", w.Pos(fi.Decl.Pos()), "cannot find the base-layer search (searchLayerUnlocked with level 0)")
+		return
+	}
+	// a layer search that itself reports an error (index closed) may end the query: those edges are not the subject
+	layerFail := map[edgeKey]bool{}
+	for _, lc := range layerCalls {
+		for e := range failureEdges(fn, lc.(*ssa.Call)) {
+			layerFail[e] = true
+		}
+	}
+	n := 0
+	for _, lc := range layerCalls {
+		c := lc.(*ssa.Call)
+		if isBase(lc) {
+			continue
+		}
+		// len(result) == 0 / != 0 / > 0 tests on this call's result
+		res := extractOfValue(c, 0)
+		if res == nil {
+			continue
+		}
+		for _, ref := range *res.Referrers() {
+			ln, ok := ref.(*ssa.Call)
+			if !ok {
+				continue
+			}
+			if _, isLen := isBuiltinCall(ln, "len"); !isLen {
+				continue
+			}
+			for _, r2 := range *ln.Referrers() {
+				bo, ok := r2.(*ssa.BinOp)
+				if !ok {
+					continue
+				}
+				zero, okc := constInt(bo.Y)
+				if !okc || zero != 0 {
+					continue
+				}
+				t, f := condEdges(bo)
+				var empty []edgeKey
+				switch bo.Op {
+				case token.EQL, token.LEQ:
+					empty = t
+				case token.NEQ, token.GTR:
+					empty = f
+				default:
+					continue
+				}
+				for _, e := range empty {
+					n++
+					found, wit := pathQuery{fn: fn, target: isReturn, avoid: isBase, blocked: layerFail}.find(ipos{e.from.Succs[e.succ], -1})
+					r.Cond(!found, "GRD-descent", fmt.Sprintf("searchInternal:empty-layer#%d:query-continues", n), w.Pos(bo.Pos()), "an empty upper-layer result leads on to the base-layer search", "searchInternal returns as soon as the search of an upper layer comes back empty: that layer's nodes may all be soft-deleted (they are left out of layer results but still walked through), so deleting the few vectors that live on the top layer makes every query return nothing until the next vacuum", w.witness(wit)...)
+				}
+			}
+		}
+	}
+	if n == 0 {
+		r.Ok("GRD-descent", "searchInternal:empty-layer:query-continues", w.Pos(fi.Decl.Pos()), "the descent never branches on an empty layer result")
 	}
 }
